@@ -28,6 +28,34 @@ CHECKS = {
         "hash-consing identity modelled as structural equality. No axioms (all Print Assumptions closed)."),
 }
 
+CHECKS["C05"] = dict(
+   text="Machine-checked proof (Coq): C05_width (the reported width of a built expression is the width of the value the written tree "
+        "denotes, corollary of C01_tree), C05_variables (the value depends only on the occurring variables), C05_concrete*, C05_depth "
+        "over the AST model, whose derived fields are compared with the fields claripy stores on every expression of the C01 generators "
+        "and on results of replace/annotate/clear_annotations/claripy.simplify. The accuracy of claripy's *stored* variables/symbolic/"
+        "depth after substitution, annotation changes and Z3 abstraction is established by recomputation on the real objects "
+        "(testing), not by proof.",
+   design="5/C05", technique="Coq lemmas on the AST model + field-by-field correspondence and recomputation",
+   note="Trusted: Coq kernel; Model/Ast.v; the serialiser; stored `variables` may be a superset (allowed by the property).")
+CHECKS["C10"] = dict(
+   text="Machine-checked proof (Coq): C10_is_true / C10_is_false -- when the construction model's cheap check answers True for an "
+        "expression built from any operation tree, the tree is valid (resp. unsatisfiable) under every assignment (corollary of "
+        "C01_tree). The solver-level is_true/is_false (Z3 simplify, backend caches, frontend plumbing) are checked by enumeration of "
+        "all models on small universes, including cache-aimed scenarios -- testing, not proof.",
+   design="5/C10", technique="Coq corollary of the construction soundness theorem; model enumeration for solver-level checks",
+   note="Trusted: Coq kernel; Model/Build.v tie of C01; Z3's simplify(e).eq(True) is an oracle assumed sound.")
+CHECKS["C11"] = dict(
+   text="Machine-checked proof (Coq) of the search algorithms every answer rests on, for every width and every truthful solver oracle: "
+        "BackendZ3._extrema returns the true optimum (C11_extrema_max/min), _batch_eval returns feasible pairwise-distinct values and all "
+        "of them when fewer than n (C11_enumerate), ModelCacheMixin.batch_eval's cached-then-solve keeps that (C11_cached_then_solve), "
+        "FullFrontend.min/max on top of eval(e,2) return the optimum in the requested signedness (C11_frontend_max/min). The models are "
+        "tied to the code by running the extracted loops against an oracle computed from the enumerated feasible set (same result, same "
+        "number of solver checks). The bookkeeping of the cache mixins across histories is NOT modelled: it is checked by random "
+        "histories and cache-aimed scenarios against a brute-force reference (4096 assignments) -- testing, not proof; that part found "
+        "and led to the repair of seven defects.",
+   design="5/C11", technique="Coq proofs of the backend search loops with an oracle; history fuzzing against enumeration for the cache layer",
+   note="Trusted: Coq kernel; truthfulness of Z3; extraction + driver; the cache layer is outside the proved model.")
+
 REASONS = {}
 DEFAULT_REASON = "not claimed yet: its Coq model and correspondence harness are not built in this snapshot (see DESIGN.md section 10 for the order); no other technique is substituted"
 
